@@ -112,13 +112,13 @@ func c04DeadlineOnce(api, how, dir string) string {
 // (the handler overran the budget it set itself) while another handler of the same link is stalled and an
 // alternating chain is parked behind a gate. Only that nested call fails — with its context's error, handed to the
 // handler, which answers normally; the stalled call, the chain and independent calls are untouched and the link stays up.
-func c02ExpiredNestedCall(rep *Report, api string) {
+func c02ExpiredNestedCall(rep *Report, prop, api string) {
 	rep.Evaluations++
 	rep.Distinct++
 	desc := map[string]any{"suite": "C02-expired-nested-call", "api": api}
 	p, err := NewPair(jsonRaw(), PairOpts{API: api})
 	if err != nil {
-		rep.addViolation("property", "C02:expired-nested:setup", "link setup failed: "+err.Error(), desc)
+		rep.addViolation("property", prop+":expired-nested:setup", "link setup failed: "+err.Error(), desc)
 		return
 	}
 	defer p.Shutdown()
@@ -144,35 +144,35 @@ func c02ExpiredNestedCall(rep *Report, api string) {
 		})
 	})
 	if !r.ok {
-		rep.addViolation("property", "C02:"+api+":expired-nested:hang", "a call whose handler made a nested call with an expired context did not return", desc)
+		rep.addViolation("property", prop+":"+api+":expired-nested:hang", "a call whose handler made a nested call with an expired context did not return", desc)
 		return
 	}
 	if r.err != nil {
-		rep.addViolation("property", "C02:"+api+":expired-nested:call", fmt.Sprintf("a handler made a nested call (a closure invocation) with a context of its own that had already expired; the OUTER call — whose handler copes with that and answers — returned (%v, %v)", r.val, r.err), desc)
+		rep.addViolation("property", prop+":"+api+":expired-nested:call", fmt.Sprintf("a handler made a nested call (a closure invocation) with a context of its own that had already expired; the OUTER call — whose handler copes with that and answers — returned (%v, %v)", r.val, r.err), desc)
 	}
 	select {
 	case e := <-p.A.LinkErr:
-		rep.addViolation("property", "C02:"+api+":expired-nested:link", fmt.Sprintf("one handler's nested call with an expired context ended the link under a stalled handler: Link returned %q", e), desc)
+		rep.addViolation("property", prop+":"+api+":expired-nested:link", fmt.Sprintf("one handler's nested call with an expired context ended the link under a stalled handler: Link returned %q", e), desc)
 		return
 	case e := <-p.B.LinkErr:
-		rep.addViolation("property", "C02:"+api+":expired-nested:link", fmt.Sprintf("one handler's nested call with an expired context ended the link under a stalled handler: Link returned %q", e), desc)
+		rep.addViolation("property", prop+":"+api+":expired-nested:link", fmt.Sprintf("one handler's nested call with an expired context ended the link under a stalled handler: Link returned %q", e), desc)
 		return
 	case s := <-stalled:
-		rep.addViolation("property", "C02:"+api+":expired-nested:sibling", fmt.Sprintf("the stalled call returned (%v, %v) when another handler's nested call was made with an expired context", s.val, s.err), desc)
+		rep.addViolation("property", prop+":"+api+":expired-nested:sibling", fmt.Sprintf("the stalled call returned (%v, %v) when another handler's nested call was made with an expired context", s.val, s.err), desc)
 		return
 	case <-time.After(20 * time.Millisecond):
 	}
 	if b := withWatchdog(func() (any, error) { return ra.Bounce(context.Background(), 4) }); !b.ok || b.err != nil {
-		rep.addViolation("property", "C02:"+api+":expired-nested:chain", fmt.Sprintf("an alternating chain after that: %+v", b), desc)
+		rep.addViolation("property", prop+":"+api+":expired-nested:chain", fmt.Sprintf("an alternating chain after that: %+v", b), desc)
 	}
 	p.B.Svc.OpenGate(51)
 	select {
 	case s := <-stalled:
 		if s.err != nil || s.val.(int) != 51 {
-			rep.addViolation("property", "C02:"+api+":expired-nested:sibling", fmt.Sprintf("the stalled call returned (%v, %v) after release, want (51, nil)", s.val, s.err), desc)
+			rep.addViolation("property", prop+":"+api+":expired-nested:sibling", fmt.Sprintf("the stalled call returned (%v, %v) after release, want (51, nil)", s.val, s.err), desc)
 		}
 	case <-time.After(watchdog):
-		rep.addViolation("property", "C02:"+api+":expired-nested:sibling", "the stalled call never returned after release", desc)
+		rep.addViolation("property", prop+":"+api+":expired-nested:sibling", "the stalled call never returned after release", desc)
 	}
 }
 
